@@ -47,9 +47,9 @@ def run_unit(unit):
         nt = nontrivial(lkeys, rkeys)
         if nt:
             agg.nontrivial += 1
-        if js.all_dtype_rejected(lkeys, rkeys, nkeys):
-            agg.skipped["all-None-vs-typed-key-column"] += 1
-            continue
+        # a key column that holds only None is typed 'object' when it was built from those values and keeps its kind when the
+        # table was DERIVED from a longer one (provenance routes): the first is refused by the dtype validation, the second joins
+        maybe_rejected = js.all_dtype_rejected(lkeys, rkeys, nkeys)
         for form in forms:
             case = js.describe_case(kind, nkeys, config, form, lkeys, rkeys, METHOD, "many_to_many")
             try:
@@ -69,6 +69,9 @@ def run_unit(unit):
             try:
                 res = L.inner_join(R, left_on=lon, right_on=ron, expect="many_to_many")
             except Exception as e:
+                if maybe_rejected and "mismatched dtypes" in str(e):
+                    agg.skipped["all-None-vs-typed-key-column"] += 1
+                    continue
                 agg.violation(V(site, "raises-" + type(e).__name__, case, want, repr(e)[:120], py))
                 continue
             agg.compared += 1
